@@ -209,6 +209,71 @@ fn check(case: &Case, run: &Run) -> Vec<Finding> {
     out
 }
 
+
+type BulkRow = (String, String, Option<bool>, bool, bool, serde_json::Value, Vec<(Finding, serde_json::Value)>);
+
+fn bulk(cli: &Cli, cases: Vec<Case>) -> Vec<BulkRow> {
+    par_map(cases, cli.threads(), |_, case| {
+        let run = run(&case.sc);
+        let findings: Vec<(Finding, serde_json::Value)> = check(case, &run).into_iter().map(|f| { let w = witness(&case.sc, &run, f.detail.clone()); (f, w) }).collect();
+        let detail = match case.sc.client.cookies[0].1.as_ref() { Some(p) => p.len(), None => 0 };
+        let sample = json!({"case": case.class, "cookie_len": detail, "expected_accept": case.accept, "should_authenticate_observed": run.client.enc_request.as_ref().map(|e| e.2), "clientbound": run.client.names(), "result": run.result.kind()});
+        (format!("{}#{}", case.class, detail), case.class.clone(), run.client.enc_request.as_ref().map(|e| e.2), case.accept, case.full, sample, findings)
+    })
+}
+
+/// Cookies issued by the server itself must expire too: fresh authentication with expiry 1 s, a
+/// real wait, then the stored cookie is presented from the same IP (must be told to authenticate);
+/// control: the same without the wait and with the default expiry (must be accepted).
+fn issued_cookie_histories(cli: &Cli) -> Vec<(String, bool, Vec<(Finding, serde_json::Value)>, serde_json::Value)> {
+    let n = cli.scaled(cli.tier.pick(2, 6));
+    let items: Vec<u64> = (0..2 * n).collect();
+    par_map(items, 8, |_, i| {
+        let aged = i % 2 == 0;
+        let mut rng = Rng::stream(cli.seed, 25_000 + i);
+        let claimed = mk::ident(&mut rng, "claimed");
+        let vouched = mk::ident(&mut rng, "vouched");
+        let secret = rng.bytes_between(8, 32);
+        let addr: std::net::SocketAddr = mk::random_addr(&mut rng).parse().expect("addr");
+        let expiry = if aged { Some(1) } else { None };
+        let build = |intent: Intent, cookie: Option<Vec<u8>>, port_shift: u16, seed: u64| {
+            let p = ScriptParams { intent, address: "hub.example.com", port: 25565, protocol: 771, claimed: &claimed, locale: "en_us", ping_payload: 0, client_info_delay: Duration::ZERO };
+            let mut plan = default_plan(&p, mk::secret16(&mut Rng::new(seed)));
+            plan.cookies = vec![(AUTH_KEY.to_string(), cookie)];
+            let adapters = mk::routing_adapters(Some((&vouched, &[])), mk::targets(&mut Rng::new(seed), 2));
+            let cfg = ServerCfg { secret: Some(secret.clone()), expiry, client_addr: std::net::SocketAddr::new(addr.ip(), addr.port().wrapping_add(port_shift).max(1)), max_frame: None };
+            default_scenario("issued-cookie-history", plan, adapters, cfg)
+        };
+        let sc1 = build(Intent::Login, None, 0, i + 1);
+        let r1 = run(&sc1);
+        let issued = facts(&r1).store_cookies.iter().find(|c| c.0 == AUTH_KEY).map(|c| c.1.clone());
+        let class = format!("issued-cookie/{}", if aged { "presented-after-expiry" } else { "presented-at-once" });
+        let mut findings = vec![];
+        let Some(cookie) = issued else {
+            let f = Finding { signature: "issued-cookie-history/no-cookie-issued".into(), what: format!("fresh authentication with a secret did not issue a cookie ({})", r1.result.kind()), detail: json!({}) };
+            let w = witness(&sc1, &r1, json!({}));
+            return (class, aged, vec![(f, w)], json!({}));
+        };
+        if aged {
+            std::thread::sleep(Duration::from_millis(3200));
+        }
+        let mut sc2 = build(Intent::Transfer, Some(cookie), 77, i + 1000);
+        // the flag is all that is needed
+        sc2.client.script = vec![sc2.client.script[0].clone(), sc2.client.script[1].clone(), Act::AwaitPkt { name: "EncryptionRequest", nth: 1 }, Act::Close, Act::AwaitClose];
+        let r2 = run(&sc2);
+        let flag = r2.client.enc_request.as_ref().map(|e| e.2);
+        match (aged, flag) {
+            (true, Some(false)) => findings.push(Finding { signature: "flag-mismatch/transfer/secret/issued-cookie-after-expiry/should-authenticate".into(), what: "a cookie issued by the server 3 s ago was accepted although the configured expiry is 1 s".into(), detail: json!({}) }),
+            (false, Some(true)) => findings.push(Finding { signature: "flag-mismatch/transfer/secret/issued-cookie-at-once/should-skip".into(), what: "a cookie issued by the server a moment ago was not accepted from the same IP".into(), detail: json!({}) }),
+            (_, None) => findings.push(Finding { signature: format!("no-encryption-request/transfer/secret/issued-cookie/{}", r2.result.kind()), what: "connection ended before the Encryption Request".into(), detail: json!({}) }),
+            _ => {}
+        }
+        let sample = json!({"case": class, "should_authenticate_observed": flag, "waited_s": if aged { 3.2 } else { 0.0 }});
+        let ws = findings.into_iter().map(|f| { let w = witness(&sc2, &r2, f.detail.clone()); (f, w) }).collect();
+        (class, aged, ws, sample)
+    })
+}
+
 pub fn run_prop(cli: &Cli) -> i32 {
     let mut report = Report::new(
         cli,
@@ -218,13 +283,22 @@ pub fn run_prop(cli: &Cli) -> i32 {
     report.assume("cookie ages within ±10 s of the expiry boundary are not generated (the code reads the wall clock)");
     report.assume("timestamp+expiry beyond 2^64 is outside the generated domain");
     let (cases, all_flips) = generate(cli);
-    let results = par_map(cases, cli.threads(), |_, case| {
-        let run = run(&case.sc);
-        let findings: Vec<(Finding, serde_json::Value)> = check(case, &run).into_iter().map(|f| { let w = witness(&case.sc, &run, f.detail.clone()); (f, w) }).collect();
-        let detail = match case.sc.client.cookies[0].1.as_ref() { Some(p) => p.len(), None => 0 };
-        let sample = json!({"case": case.class, "cookie_len": detail, "expected_accept": case.accept, "should_authenticate_observed": run.client.enc_request.as_ref().map(|e| e.2), "clientbound": run.client.names(), "result": run.result.kind()});
-        (format!("{}#{}", case.class, detail), case.class.clone(), run.client.enc_request.as_ref().map(|e| e.2), case.accept, case.full, sample, findings)
+    // the real-time histories run beside the bulk of the cases
+    let (histories, results) = std::thread::scope(|sc| {
+        let h = sc.spawn(|| issued_cookie_histories(cli));
+        let r = bulk(cli, cases);
+        (h.join().unwrap_or_default(), r)
     });
+    for (class, aged, findings, sample) in histories {
+        report.eval(Some(&class));
+        report.count(if aged { "server-issued cookies presented after their expiry" } else { "server-issued cookies presented at once" }, 1);
+        if report.wants_sample() {
+            report.sample(sample);
+        }
+        for (fi, w) in findings {
+            report.violation(&fi.signature, &fi.what, w);
+        }
+    }
     let mut n = 0usize;
     for (key, class, flag, accept, full, sample, findings) in results {
         n += 1;
